@@ -383,6 +383,24 @@ def check_model(model, rec):
                 continue
             if not (isinstance(b, numpy.ndarray) and U.result_equal(a, b, 0.0)):
                 return [Failure("model_results_differ|%s" % type(p1.commands[name]).__name__, "%s\n%s" % (name, s1))]
+        # serialising *after* the run: what is written is still the program as it was built, and runs to the same results
+        try:
+            s_after = p1.to_string()
+            p4 = Program.from_source(s_after, libraries=EEMS_CSV_LIBRARIES, working_dir=tmp)
+        except Exception as exc:
+            return [Failure("model_reload_after_run_raises:%s" % type(exc).__name__, "%r\n%s" % (exc, text))]
+        diff = compare_programs(p3, p4)
+        if diff:
+            return [Failure("model_changed_by_running:%s" % diff[0], "%r\nbefore the run:\n%s\nafter the run:\n%s" % (diff, s1, s_after))]
+        try:
+            p4.run()
+        except Exception as exc:
+            return [Failure("model_serialised_after_run_fails:%s" % type(exc).__name__, "%r\n%s" % (exc, s_after))]
+        for name in p1.commands:
+            a, b = p1.commands[name].result, p4.commands[name].result
+            if isinstance(a, numpy.ndarray) and not (isinstance(b, numpy.ndarray) and U.result_equal(a, b, 0.0)):
+                return [Failure("model_results_differ_after_run|%s" % type(p1.commands[name]).__name__, "%s\n%s" % (name, s_after))]
+        rec.label("model_serialised_after_run")
         if any(n.get("meta") for n in model["nodes"]) or any(
                 isinstance(v, float) for n in model["nodes"] for v in n.get("params", {}).values()):
             rec.nontrivial_case(model)
